@@ -93,6 +93,24 @@ def run(ctx):
         res.site(key, True, {"arm": v, "assigns_pending_write": bool(st), "calls_on_pending_reads": sorted(x for x in cl if x), "verdict": "ok" if ok else "VIOLATION"})
         if not ok:
             res.find(key, rec.loc(a["sp"]), "%s (assigns write: %s; calls on reads: %s)" % (msg, bool(st), sorted(x for x in cl if x)), wit)
+    # the pending write survives reads: it is mutated (assigned, or mutably borrowed: take / replace / insert ...) only
+    # inside the Write arm
+    key = "K7|pending-write-kept-across-reads"
+    warm = arms.get("Write")
+    outside = []
+    for bb, s_ in wstores:
+        if not (warm and in_span(s_["sp"], warm["body_sp"])):
+            outside.append("assignment")
+    for i, j, s_ in rec.stmts():
+        if s_["k"] == "assign" and s_["rv"]["k"] == "ref" and s_["rv"].get("m") == "mut" and any(isinstance(pr, dict) and pr.get("o") == DQ and pr.get("n") == "write" for pr in s_["rv"]["p"]["pr"]):
+            if not (warm and in_span(s_["sp"], warm["body_sp"])):
+                l_ = s_["p"]["l"]
+                used = [c.get("name") for bb, t, c in rec.calls() if c and any((a.get("m") or a.get("c") or {}).get("l") == l_ for a in t["args"])]
+                outside.append("&mut borrow (%s)" % ", ".join(x for x in used if x))
+    ok = not outside
+    res.site(key, True, {"mutations_outside_write_arm": outside, "verdict": "ok" if ok else "VIOLATION"})
+    if not ok:
+        res.find(key, rec.loc(), "the pending write of a DependencyQueue is modified outside the Write arm (%s): a read clears or replaces it, so later accesses are no longer ordered after that write" % outside, "`MOVE x 1; MOVE a x; MOVE b x`: the second read of x does not depend on the write")
     # into_pending_dependencies
     reads = k2.deep_read_paths(db, ipd, 1)
     key = "K3|pending-dependencies"
